@@ -29,6 +29,18 @@ type LinCase struct {
 	OMax     int     `json:"omax"`
 	MinLevel int     `json:"minlevel"`
 	MaxLevel int     `json:"maxlevel"`
+	// Earlier, if set, is a previous life of the same scale value: it is first given this
+	// domain and base and used (Nice, Ticks, CountTicks), then its exported fields are
+	// re-assigned to those of the case.
+	Earlier *EarlierScale `json:"earlier,omitempty"`
+}
+
+// EarlierScale: see LinCase.Earlier / LogCase.Earlier.
+type EarlierScale struct {
+	Min  float64 `json:"min"`
+	Max  float64 `json:"max"`
+	Base int     `json:"base"`
+	OMax int     `json:"omax"`
 }
 
 func ebaseOf(b int) float64 {
@@ -128,6 +140,14 @@ var checkLinTicks = ev.Register("linear-ticks", func(c *LinCase) ev.Outcome {
 	}
 	o := scale.TickOptions{Max: c.OMax, MinLevel: c.MinLevel, MaxLevel: c.MaxLevel}
 	s := scale.Linear{Min: c.Min, Max: c.Max, Base: c.Base}
+	if e := c.Earlier; e != nil && e.OMax >= 1 && e.Base >= 0 && e.Base != 1 {
+		s = scale.Linear{Min: e.Min, Max: e.Max, Base: e.Base}
+		eo := scale.TickOptions{Max: e.OMax}
+		(&s).Nice(eo)
+		s.Ticks(eo)
+		s.CountTicks(0)
+		s.Min, s.Max, s.Base = c.Min, c.Max, c.Base
+	}
 	lo, hi := math.Min(c.Min, c.Max), math.Max(c.Min, c.Max)
 	w := hi - lo
 	if w > 0 && (math.Abs(lo+hi)/2 > 1.001e3*w || w < 0.999e-9 || w > 1.001e9) {
@@ -280,18 +300,29 @@ var checkLinTicks = ev.Register("linear-ticks", func(c *LinCase) ev.Outcome {
 // ---------------------------------------------------------------- Log
 
 type LogCase struct {
-	Min      float64 `json:"min"`
-	Max      float64 `json:"max"`
-	Base     int     `json:"base"`
-	OMax     int     `json:"omax"`
-	MinLevel int     `json:"minlevel"`
-	MaxLevel int     `json:"maxlevel"`
+	Min      float64       `json:"min"`
+	Max      float64       `json:"max"`
+	Base     int           `json:"base"`
+	OMax     int           `json:"omax"`
+	MinLevel int           `json:"minlevel"`
+	MaxLevel int           `json:"maxlevel"`
+	Earlier  *EarlierScale `json:"earlier,omitempty"` // see LinCase.Earlier
 }
 
 var checkLogTicks = ev.Register("log-ticks", func(c *LogCase) ev.Outcome {
 	s, err := scale.NewLog(c.Min, c.Max, c.Base)
 	if err != nil || c.OMax < 1 {
 		return ev.Fail("harness error: %v", err)
+	}
+	if e := c.Earlier; e != nil && e.OMax >= 1 {
+		if s2, err2 := scale.NewLog(e.Min, e.Max, e.Base); err2 == nil {
+			eo := scale.TickOptions{Max: e.OMax}
+			(&s2).Nice(eo)
+			s2.Ticks(eo)
+			s2.CountTicks(0)
+			s2.Min, s2.Max, s2.Base = s.Min, s.Max, s.Base
+			s = s2
+		}
 	}
 	o := scale.TickOptions{Max: c.OMax, MinLevel: c.MinLevel, MaxLevel: c.MaxLevel}
 	neg := s.Min < 0
@@ -600,6 +631,17 @@ func TestLinearTicks(t *testing.T) {
 			}
 		}
 		c.OMax, c.MinLevel, c.MaxLevel = drawOptions(rt, false)
+		if rapid.IntRange(0, 3).Draw(rt, "reused") == 0 {
+			// the scale value had another life: another base on the same or a related domain
+			e := &EarlierScale{Min: c.Min, Max: c.Max, Base: rapid.SampledFrom([]int{16, 0, 2, 10, 3, 5}).Draw(rt, "ebase"), OMax: rapid.IntRange(1, 8).Draw(rt, "eomax")}
+			switch rapid.IntRange(0, 2).Draw(rt, "edomain") {
+			case 1:
+				e.Min, e.Max = -c.Max, -c.Min
+			case 2:
+				e.Max = c.Min + (c.Max-c.Min)*rapid.SampledFrom([]float64{0.1, 3, 1.7, 100}).Draw(rt, "escale")
+			}
+			c.Earlier = e
+		}
 		checkLinTicks.Run(rt, c)
 	})
 }
@@ -637,6 +679,16 @@ func TestLogTicks(t *testing.T) {
 			c.Max = c.Min
 		}
 		c.OMax, c.MinLevel, c.MaxLevel = drawOptions(rt, true)
+		if rapid.IntRange(0, 3).Draw(rt, "reused") == 0 && c.Min != c.Max {
+			e := &EarlierScale{Min: c.Min, Max: c.Max, Base: rapid.SampledFrom([]int{10, 2, 3, 16}).Draw(rt, "ebase"), OMax: rapid.IntRange(1, 8).Draw(rt, "eomax")}
+			switch rapid.IntRange(0, 2).Draw(rt, "edomain") {
+			case 1: // the negated mirror image
+				e.Min, e.Max = -c.Max, -c.Min
+			case 2:
+				e.Max = c.Max * rapid.SampledFrom([]float64{10, 1e3, 7}).Draw(rt, "escale")
+			}
+			c.Earlier = e
+		}
 		checkLogTicks.Run(rt, c)
 	})
 }
